@@ -463,6 +463,10 @@ func e(v any, kind string, bad bool, tags ...string) Entry {
 var mapKeys = []string{"k", "id", "name", "n", "p1", "mask", "'q k'", "名前", "9"}
 
 // Entries is the zoo.
+// WideOnly: generated wide structs that only the concurrent first-use scenario of the bind
+// layer meets (they take no part in the generators).
+var WideOnly []Entry
+
 var Entries = []Entry{
 	e(Person{}, "struct", false, "id", "name", "address_id"),
 	e(Address{}, "struct", false, "id", "district", "street"),
